@@ -127,6 +127,18 @@ def check_vector(v):
             return [[int(x) for x in np.asarray(r.to_array() if hasattr(r, "to_array") else r).tolist()] for r in bnp.compute(lazy[intervals])]
         cmp("streamed track[intervals]", v["under"], lambda: streamed(giu))
         cmp("streamed track[stranded intervals]", v["understr"], lambda: streamed(gi))
+    # arithmetics.sort_intervals with the order of the contigs given explicitly (a list, a key function; also the opposite order)
+    from bionumpy.arithmetics import sort_intervals as _sort
+    from bionumpy.datatypes import Interval as _Iv3
+    plain = lambda: _Iv3([names[e["c"] - 1] for e in es], np.array([e["s"] for e in es], dtype=int), np.array([e["e"] for e in es], dtype=int))
+    srt3 = [[r[0], r[1], r[2]] for r in v["sorted"]] if v["sorted"] and isinstance(v["sorted"][0], list) else None
+    if srt3 is None:
+        srt3 = [[names[r["c"] - 1], r["s"], r["e"]] for r in sorted(es, key=lambda e: (e["c"], e["s"], e["e"]))]
+    rows3 = lambda t: [[c, int(a), int(b)] for c, a, b in zip(t.chromosome.tolist(), t.start.tolist(), t.stop.tolist())]
+    cmp("sort_intervals[sort_order]", srt3, lambda: rows3(_sort(plain(), sort_order=list(names))))
+    cmp("sort_intervals[chromosome_key_function]", srt3, lambda: rows3(_sort(plain(), chromosome_key_function=list(names).index)))
+    rev3 = [[names[r["c"] - 1], r["s"], r["e"]] for r in sorted(es, key=lambda e: (-e["c"], e["s"], e["e"]))]
+    cmp("sort_intervals[sort_order reversed]", rev3, lambda: rows3(_sort(plain(), sort_order=list(names)[::-1])))
     # every base of the genome as a location, mapped into the intervals that hold it (MC_C10!MapLoc); the intervals in genome order
     # (searching sorted positions is the documented way map_locations works)
     if all((a["c"], a["s"]) <= (b["c"], b["s"]) for a, b in zip(es, es[1:])) and all(a["e"] <= b["s"] or a["c"] != b["c"] for a, b in zip(es, es[1:])):
